@@ -7,5 +7,9 @@ mkdir -p /verif/bin /verif/.work /verif/evidence /verif/replay
 W=/verif/.work/setup.$$
 /verif/lib/build_bpx.sh "$W"
 "$W/bpx" -list >/dev/null
+/verif/lib/build_root.sh "$W" streammc
+/verif/lib/build_obf.sh "$W"
+# warm the -race build cache used by the C16 race pass
+/verif/lib/build_root.sh "$W/race" streammc -race
 rm -rf "$W"
 echo setup ok
